@@ -27,7 +27,7 @@ for i in ids:
     rows.append("| %s | %s | %s | %s | %s | %s |" % (i, ", ".join(files), line, "yes" if f else "no", "yes" if n else "NO", st))
 head = """# Seeded changes
 
-%d changes in four rounds: one per property (ids Cxx), then further ones (ids Cxxb, Cxxc) for which the agent was told
+%d changes in thirteen rounds: one per property (ids Cxx), then further ones (ids Cxxb, Cxxc, ...) for which the agent was told
 which mechanisms the earlier changes for that property had used and asked for a different one. Each was written by an
 independent sub-agent that was given only the property text and its own scratch worktree of /repo (nothing from
 /verif). Every change compiles (also with `-tags verif`), passes the 171 baseline tests and comes with a demonstration
